@@ -14,6 +14,8 @@ os.environ.setdefault("OMP_NUM_THREADS", "1")
 if os.path.join(REPO, "src") not in sys.path:
     sys.path.insert(0, os.path.join(REPO, "src"))
 
+import warnings
+warnings.filterwarnings("ignore")
 import fcntl, fractions, hashlib, json, random, re, shutil, subprocess, time
 from concurrent.futures import ThreadPoolExecutor
 
